@@ -101,7 +101,10 @@ type WStep struct {
 	Ops    []KOp `json:"ops"`
 	Abort  bool  `json:"abort,omitempty"`  // the transaction function returns an error
 	Single bool  `json:"single,omitempty"` // one operation through Router.Handle/Update/Delete on a single-op key
-	Yield  bool  `json:"yield,omitempty"`
+	// ViaRoute (single operations): the route is built first with Router.NewRoute and then registered or swapped in with
+	// Router.HandleRoute / Router.UpdateRoute instead of Router.Handle / Router.Update
+	ViaRoute bool `json:"via_route,omitempty"`
+	Yield    bool `json:"yield,omitempty"`
 	// Peek: the last thing the transaction function does before returning nil is to read its own state through an iterator
 	// ("iter") or a snapshot ("snapshot"); the commit that follows must still publish every write.
 	Peek string `json:"peek,omitempty"`
@@ -289,11 +292,22 @@ func run(p *Plan, count bool) error {
 					var rte *fox.Route
 					var err error
 					call := rec.clock.Add(1)
+					var built *fox.Route
+					if st.ViaRoute && op.Kind != "delete" {
+						if built, err = f.NewRoute(k.Pattern, served(op.Key, ver), fox.WithAnnotation(verKey, ver)); err != nil {
+							rec.fail("writer %d: NewRoute(%s) returned %v", w, k.Pattern, err)
+							return
+						}
+					}
 					werr, inconclusive := hist.Guarded(func() {
-						switch op.Kind {
-						case "handle":
+						switch {
+						case op.Kind == "handle" && built != nil:
+							err = f.HandleRoute(k.Method, built)
+						case op.Kind == "update" && built != nil:
+							err = f.UpdateRoute(k.Method, built)
+						case op.Kind == "handle":
 							_, err = f.Handle(k.Method, k.Pattern, served(op.Key, ver), fox.WithAnnotation(verKey, ver))
-						case "update":
+						case op.Kind == "update":
 							_, err = f.Update(k.Method, k.Pattern, served(op.Key, ver), fox.WithAnnotation(verKey, ver))
 						default:
 							rte, err = f.Delete(k.Method, k.Pattern)
@@ -703,6 +717,7 @@ func genPlan(t *rapid.T) *Plan {
 			st := WStep{Yield: gen.Chance(t, 1, 4, "yield")}
 			if gen.Chance(t, 1, 4, "single") {
 				st.Single = true
+				st.ViaRoute = gen.Chance(t, 1, 3, "viaroute")
 				st.Ops = []KOp{{Kind: gen.Pick(t, []string{"handle", "update", "delete"}, "kind"), Key: gen.IntR(t, nTxn, len(keys)-1, "skey")}}
 			} else {
 				n := gen.IntR(t, 1, 3, "nops")
